@@ -301,8 +301,6 @@ impl InMemoryStoreInner {
         proof { axiom_hash_key_model(); }
         let ghost hs = headers.0@;
 //@sub E9 "let (prev_exists, next_exists) = self .header_ranges .check_insertion_constraints(&headers_range) .map_err(StoreInsertionError::ConstraintsNotMet)?;" => "let (prev_exists, next_exists) = match self.header_ranges.check_insertion_constraints(&headers_range) { Ok(x) => x, Err(e) => return Err(StoreError::InsertionFailed(StoreInsertionError::ConstraintsNotMet(e))) };"
-//@sub E9 "prev_exists.then_some(head)" => "(if prev_exists { Some(head) } else { None })"
-//@sub E9 "next_exists.then_some(tail)" => "(if next_exists { Some(tail) } else { None })"
 //@hint after "let headers_range = head.height()..=tail.height();"
         proof { lemma_chain_heights(hs, hs.len() as int - 1); }
         let ghost lo = head.h as int; let ghost hi = tail.h as int;
